@@ -27,13 +27,13 @@ Classes == {"r_zero", "s_zero", "high_s_rej", "high_s_acc", "x_ge_n", "R_inf", "
             "digest_long", "accept", "reject", "enc_asn1", "enc_compact", "enc_rec", "enc_bogus", "rec_wrong_v", "btc_accept",
             "btc_badenv", "btc_high_s", "hash_mismatch", "parse_reject", "alt_path", "nil_opts",
             "d_one", "d_nm1", "pub_yodd", "pub_yeven", "digest_zero", "digest_ones", "neg_s", "noneg_s", "v0", "v1",
-            "sv_same", "build_der", "build_short", "build_compact", "inadmissible_len", "inadmissible_enc", "rfc6979", "hedged", "sign_len_long",
+            "sv_same", "build_der", "build_short", "build_compact", "inadmissible_len", "inadmissible_enc", "rfc6979", "hedged", "split_key", "sign_len_long",
             "reader_short_reads", "reader_fail_0", "reader_fail_mid", "reader_fail_31", "reader_err_with_last", "reader_ok",
             "same_triple", "entropy_one_byte_diff", "constant_entropy_diff_msg", "nil_rand", "wiped_import",
             "sample_first", "sample_after_zero", "sample_after_ge_n", "sample_exhausted", "sample_short", "sample_edge_accept",
             "drbg_multi", "drbg_vector",
             "priv_ok", "priv_zero", "priv_ge_n", "priv_badlen", "pub_ok_unc", "pub_ok_cmp", "pub_identity", "pub_invalid",
-            "pub_twist", "ecdh_ok", "ecdh_edge", "ecdh_repeat", "key_immutable", "after_scribble", "after_derive", "steered_u2",
+            "pub_twist", "ecdh_ok", "ecdh_edge", "ecdh_repeat", "key_immutable", "after_scribble", "after_derive", "steered_u2", "near_miss_r", "sig_stable",
             "rec_v_ge4", "rec_hi_ok", "rec_hi_overflow", "rec_not_x", "rec_q_inf", "rec_rs_zero", "rec_ok", "rec_honest_other_v"}
 
 RPointOf(q, e, r, s) == LET w == SInv(s) IN PAdd(PMulG(SMul(e, w)), PMul(SMul(r, w), q))
@@ -112,7 +112,8 @@ Verdict(ev) ==
              want == eo[1] = "ok" /\ VerifyPred(q, eo[2], r, s) IN
          << KeyOK(ev.q) /\ (ev.out <=> want),
             VerifyClasses(q, eo, r, s, ev.out) \cup DigestClasses(ev.digest) \cup (IF Has(ev, "after_scribble") THEN {"after_scribble"} ELSE {})
-            \cup (IF Has(ev, "after_derive") THEN {"after_derive"} ELSE {}) >>
+            \cup (IF Has(ev, "after_derive") THEN {"after_derive"} ELSE {})
+            \cup (IF Has(ev, "near_miss") /\ ~want THEN {"near_miss_r"} ELSE {}) >>
     [] ev.ev = "vfy.Alt" ->
          LET d == H(ev.d)  eo == EOf(ev.digest)  r == H(ev.r)  s == H(ev.s)
              want == eo[1] = "ok" /\ VerifyPred(PMulG(d), eo[2], r, s) IN
@@ -171,6 +172,7 @@ Verdict(ev) ==
                /\ \E v \in 0..3 : SigIsSignOutput(d, e, p[2], p[3], v),
                EncClass(eff) \cup {"sv_same"} \cup (IF Len(dg) > W THEN {"sign_len_long"} ELSE {})
                \cup (IF ev.optkind = "nil" THEN {"nil_opts"} ELSE {}) \cup DigestClasses(ev.digest) >>
+    [] ev.ev = "sig.Stable" -> << ev.now = ev.then, {"sig_stable"} >>     \* a signature handed out earlier is untouched by later signing
     [] ev.ev = "der.Build" ->           \* the encoder Sign uses: canonical DER and it parses back
          LET r == H(ev.r)  s == H(ev.s)  want == BuildDerSig(r, s) IN
          << HB(ev.out) = want /\ ParseDerSig(want) = <<"ok", r, s>> /\ ev.reparsed,
@@ -275,6 +277,7 @@ StatefulVerdict(ev) ==
           \cup (IF \E i \in 1..Len(ev.reads) : ev.reads[i][3] THEN {"reader_err_with_last"} ELSE {})
           \cup (IF known THEN {"same_triple"} ELSE {})
           \cup (IF Has(ev, "nil_rand") THEN {"nil_rand"} ELSE {}) \cup (IF Has(ev, "wiped_import") THEN {"wiped_import"} ELSE {})
+          \cup (IF Has(ev, "split_key") THEN {"split_key"} ELSE {})
           \cup (IF ~known /\ \E k \in DOMAIN seenKey : k[1] = key[1] /\ k[2] = key[2] THEN {"entropy_one_byte_diff"} ELSE {})
           \cup (IF ~known /\ \E k \in DOMAIN seenKey : k[3] = key[3] /\ (k[1] # key[1] \/ k[2] # key[2]) THEN {"constant_entropy_diff_msg"} ELSE {}),
           IF known THEN seenKey ELSE [k \in DOMAIN seenKey \cup {key} |-> IF k = key THEN <<ev.r, ev.s>> ELSE seenKey[k]],
